@@ -12,6 +12,8 @@
 //	reenc                          decode -> encode -> decode of the episode's file (monitor only) -> -
 //	tamper <path> <alt>            one alteration of one JSON leaf / list of the episode's file,
 //	                               decode, VerifyHashes, VerifySignatures (monitor only) -> -
+//	forged <what> <ver> <hexjson>  a lock with right hashes and signatures whose artifacts are mutually
+//	                               inconsistent must be rejected (monitor only)             -> -
 //	create <k=v ...>               `charon create cluster` in-process + artifact checks (monitor only) -> -
 //
 // `hash` ops are self-contained (exec mode rebuilds the struct from the dump); `tamper`/`reenc`
@@ -480,8 +482,13 @@ func (d *drv) genLock(p genParams) (cluster.Lock, genKeys) {
 		}
 		vals = append(vals, dv)
 	}
-	lock := cluster.Lock{Definition: def, Validators: vals}
-	lock, err = lock.SetLockHash()
+	lock := signLock(cluster.Lock{Definition: def, Validators: vals}, keys)
+	return lock, keys
+}
+
+// signLock sets the lock hash, the aggregate signature of all key shares and the node signatures.
+func signLock(lock cluster.Lock, keys genKeys) cluster.Lock {
+	lock, err := lock.SetLockHash()
 	hx.Must(err)
 	var sigs []tbls.Signature
 	for _, shs := range keys.shares {
@@ -494,14 +501,145 @@ func (d *drv) genLock(p genParams) (cluster.Lock, genKeys) {
 	agg, err := tbls.Aggregate(sigs)
 	hx.Must(err)
 	lock.SignatureAggregate = append([]byte(nil), agg[:]...)
-	if mv >= 7 {
+	lock.NodeSignatures = nil
+	if minor(lock.Version) >= 7 {
 		for _, k := range keys.p2p {
 			ns, err := k1util.Sign(k, lock.LockHash)
 			hx.Must(err)
 			lock.NodeSignatures = append(lock.NodeSignatures, ns)
 		}
 	}
-	return lock, keys
+	return lock
+}
+
+// forged locks: hashes and every signature are right, but the artifacts are mutually inconsistent.
+// forge returns "" if the case does not apply.
+func (d *drv) forge(what string, lock cluster.Lock, keys genKeys) (cluster.Lock, bool) {
+	var l cluster.Lock
+	p := &vparser{s: dump(lock)}
+	hx.Must(p.parse(reflect.ValueOf(&l).Elem()))
+	ks := genKeys{p2p: keys.p2p, roots: append([]tbls.PrivateKey(nil), keys.roots...)}
+	for _, sh := range keys.shares {
+		ks.shares = append(ks.shares, append([]tbls.PrivateKey(nil), sh...))
+	}
+	n := len(l.Operators)
+	rd := rngReader{d.rng}
+	fresh := func() (tbls.PrivateKey, []byte) {
+		k, err := tbls.GenerateInsecureKey(new(testing.T), rd)
+		hx.Must(err)
+		pk, err := tbls.SecretToPublicKey(k)
+		hx.Must(err)
+		return k, append([]byte(nil), pk[:]...)
+	}
+	switch what {
+	case "extra-share-off-polynomial": // the last node's share of validator 0 is an unrelated key
+		if l.Threshold >= n {
+			return l, false
+		}
+		k, pk := fresh()
+		ks.shares[0][n-1] = k
+		l.Validators[0].PubShares[n-1] = pk
+	case "first-share-off-polynomial": // node 0's share of validator 0 is an unrelated key
+		k, pk := fresh()
+		ks.shares[0][0] = k
+		l.Validators[0].PubShares[0] = pk
+	case "shares-of-other-validator": // validator 0 lists the shares of validator 1
+		if len(l.Validators) < 2 {
+			return l, false
+		}
+		l.Validators[0].PubShares, l.Validators[1].PubShares = l.Validators[1].PubShares, l.Validators[0].PubShares
+		ks.shares[0], ks.shares[1] = ks.shares[1], ks.shares[0]
+	case "duplicate-share": // two nodes hold the same share
+		ks.shares[0][1] = ks.shares[0][0]
+		l.Validators[0].PubShares[1] = l.Validators[0].PubShares[0]
+	case "duplicate-validator-key":
+		if len(l.Validators) < 2 {
+			return l, false
+		}
+		l.Validators[1] = l.Validators[0]
+		ks.shares[1] = ks.shares[0]
+	case "registration-of-other-key": // builder registration signed by an unrelated key
+		if minor(l.Version) < 7 {
+			return l, false
+		}
+		k, _ := fresh()
+		reg := l.Validators[0].BuilderRegistration
+		msg, err := registration.NewMessage(eth2p0.BLSPubKey(l.Validators[0].PubKey), l.ValidatorAddresses[0].FeeRecipientAddress, uint64(reg.Message.GasLimit), reg.Message.Timestamp)
+		hx.Must(err)
+		sr, err := registration.GetMessageSigningRoot(msg, eth2p0.Version(l.ForkVersion))
+		hx.Must(err)
+		sig, err := tbls.Sign(k, sr[:])
+		hx.Must(err)
+		l.Validators[0].BuilderRegistration.Signature = append([]byte(nil), sig[:]...)
+	case "node-signature-of-other-key":
+		if minor(l.Version) < 7 {
+			return l, false
+		}
+		l = signLock(l, ks)
+		other := k1.PrivKeyFromBytes(d.bytes(32))
+		ns, err := k1util.Sign(other, l.LockHash)
+		hx.Must(err)
+		l.NodeSignatures[n-1] = ns
+		return l, true
+	case "aggregate-misses-a-share": // one share did not sign
+		l, err := l.SetLockHash()
+		hx.Must(err)
+		full := signLock(l, ks)
+		var sigs []tbls.Signature
+		for vi, shs := range ks.shares {
+			for si, s := range shs {
+				if vi == 0 && si == 0 {
+					continue
+				}
+				sig, err := tbls.Sign(s, l.LockHash)
+				hx.Must(err)
+				sigs = append(sigs, sig)
+			}
+		}
+		agg, err := tbls.Aggregate(sigs)
+		hx.Must(err)
+		full.SignatureAggregate = append([]byte(nil), agg[:]...)
+		return full, true
+	case "threshold-above-nodes":
+		l.Threshold = n + 1
+		if cluster.VerifSupportEIP712Sigs(l.Version) {
+			return l, false // would need re-signing the definition; covered by the config hash
+		}
+		df, err := l.Definition.SetDefinitionHashes()
+		hx.Must(err)
+		l.Definition = df
+	default:
+		panic("forge " + what)
+	}
+	return signLock(l, ks), true
+}
+
+var forgeKinds = []string{"extra-share-off-polynomial", "first-share-off-polynomial", "shares-of-other-validator",
+	"duplicate-share", "duplicate-validator-key", "registration-of-other-key", "node-signature-of-other-key",
+	"aggregate-misses-a-share", "threshold-above-nodes"}
+
+// opForged: a consistently hashed and signed but inconsistent lock must be rejected.
+func (d *drv) opForged(what string, l cluster.Lock) {
+	b, err := json.Marshal(l)
+	hx.Must(err)
+	d.execForged(what, l.Version, b)
+}
+
+func (d *drv) execForged(what, ver string, b []byte) {
+	line := "forged " + what + " " + ver + " " + hex.EncodeToString(b)
+	dd, err := decodeDoc("lock", b)
+	switch {
+	case err != nil:
+		d.run.Count("forged:decode-error")
+	default:
+		r := dd.verify()
+		if r == "" {
+			d.run.Violate("cluster:inconsistent_lock_accepted:"+what, fmt.Sprintf("%s lock with consistent hashes and signatures but %s passes VerifyHashes and VerifySignatures", ver, what))
+		}
+		d.run.Count("forged:" + what + ":rejected-" + r)
+	}
+	d.run.Case("forged:" + ver + ":" + what)
+	d.run.Op(line, "-")
 }
 
 func (d *drv) randParams(ver string, i int) genParams {
@@ -1650,7 +1788,7 @@ func (d *drv) opCreate(p createParams) {
 func (d *drv) episode(i int) {
 	ver := versions[i%len(versions)]
 	p := d.randParams(ver, i)
-	lock, _ := d.genLock(p)
+	lock, keys := d.genLock(p)
 	d.run.Case(fmt.Sprintf("gen:%s:n%d:t%d:v%d:%s:%v:%v", ver, p.n, p.t, p.nv, p.network, p.amounts, p.compounding))
 
 	lb, err := json.Marshal(lock)
@@ -1661,6 +1799,11 @@ func (d *drv) episode(i int) {
 	d.opReenc()
 	d.tamperAll(4)
 	d.mutants(lock, 10)
+	for _, fk := range forgeKinds {
+		if fl, ok := d.forge(fk, lock, keys); ok {
+			d.opForged(fk, fl)
+		}
+	}
 
 	db, err := json.Marshal(lock.Definition)
 	hx.Must(err)
@@ -1744,6 +1887,13 @@ func (d *drv) exec(ops []string) {
 				continue
 			}
 			d.opTamper(l, f[2], orig, orig.dump())
+		case f[0] == "forged" && len(f) == 4:
+			b, err := hex.DecodeString(f[3])
+			if err != nil {
+				d.run.Op(op, "bad-op")
+				continue
+			}
+			d.execForged(f[1], f[2], b)
 		case f[0] == "create":
 			p, ok := parseCreate(op)
 			if !ok {
